@@ -207,6 +207,23 @@ PROPS["C20"] = {
     "technique": "Lean 4 proof over a stage-machine model whose stage order and file filter are regenerated from cmd/ogen/main.go by a go/ast translator; differential runs against the built binary with recursive directory snapshots",
 }
 
+PROPS["C08"] = {
+    "lean_modules": ["Ogen.Props.C08"],
+    "suites": ["c08"],
+    "facts": ["regex"],
+    "trusted_base": [
+        KERNEL, HARNESS,
+        "the fact translator harness/cmd/extract: Ogen/Generated/Facts_regex.lean (whitespaceChars, re2Dot, the [] / [^] replacement literals of scanBracket) regenerated from ogenregex/convert.go on every run; facts_whitespace, facts_dot, facts_any_class, facts_empty_class are stated over it",
+        "statements in lean/Ogen/Props/C08.lean; the ECMA-262 side (ecmaDenote: WhiteSpace = TAB VT FF ZWNBSP + category Zs of Unicode 15, LineTerminator, ASCII \\d \\w, code-point `.`) and the RE2 side (re2Denote) are written by hand from the two specifications; Go's regexp atom semantics are modelled, not verified — tied by running every emitted atom against a code-point grid (all scalar values in the thorough tier)",
+        "model Conv.convert hand-written from ogenregex/convert.go; tie = output text compared with the real Convert on random token sequences incl. malformed ones; end-to-end tie = ogenregex.Compile(p).MatchString(s) compared with accepts (ecmaDenote e) s on every subject of length ≤ L over a 17-symbol alphabet; regexp2 is a second opinion in the failing-input search only where it is itself ECMA-262",
+        "NOT proved: syntax commutation for groups, classes with ranges, bounded repetition and look-ahead escapes; the fallback decision is checked on the implementation",
+    ],
+    "assumptions": ["no flags; Unicode 15 Zs set", "quantified assertions (`^*`) are outside the portable grammar"],
+    "level_text": "partial: preserves (language preservation for the fragment, all subjects) with the atom lemmas over all code points stated on constants regenerated from the source; convert_flat (syntax commutation for flat tokens). Whole-grammar syntax commutation is not proved: it is covered by the converter-text and end-to-end correspondences on every run.",
+    "level_note": "trusted: Lean kernel, statements, hand-written ECMA/RE2 denotations, fact translator, converter model + ties, Go regexp atom behaviour as sampled.",
+    "technique": "Lean 4 proof of language preservation by structural induction with atom lemmas over all code points on constants regenerated from the source; converter model tied differentially; end-to-end matching compared with the ECMA semantics model",
+}
+
 # properties not claimed, with the reason (kept current; see DESIGN.md §7)
 NOT_CLAIMED = {
     "C10": "not applicable: determinism/race-freedom of generation lives in Go map iteration order, goroutine scheduling and the memory model; no executable model separate from the runtime can express it (DESIGN.md §7)",
